@@ -17,7 +17,7 @@ LQuick == {L(4, <<0>>), L(4, <<1>>)}
    \cup {L(70, A(17)), L(71, A(34)), L(72, A(51)), L(72, A(52)), L(73, A(51)), L(73, A(50)), L(74, A(68)), L(75, A(68)), L(75, A(67))}
    \cup {L(76, <<>>), L(95, <<1, 2, 3>>), <<"nmt", 130>>}
 \* probe: finish a selective sequence from wherever it is, then inquire everything, store, reset, boot-up id
-PL == << L(67, A(68)), L(75, A(68)), L(94, <<>>), L(4, <<1>>), L(90, <<>>), L(91, <<>>), L(92, <<>>), L(93, <<>>), L(94, <<>>), L(23, <<>>), L(76, <<>>), <<"nmt", 130>>, L(94, <<>>), L(4, <<1>>), L(94, <<>>) >>
+PL == << L(67, A(68)), L(75, A(68)), L(94, <<>>), L(4, <<1>>), L(90, <<>>), L(91, <<>>), L(92, <<>>), L(93, <<>>), L(94, <<>>), L(23, <<>>), L(76, <<>>), <<"sdoid", 5>>, <<"sdoid", 9>>, <<"nmt", 130>>, <<"sdoid", 5>>, <<"sdoid", 9>>, L(94, <<>>), L(4, <<1>>), L(94, <<>>) >>
 \* C20 (LSS part): reset in every state (also in the middle of a selective / identify sequence), then the REST of both
 \* sequences alone (a fresh slave ignores it), inquiries (silent while waiting), then a complete selective sequence
 L20L == LQuick \cup {<<"nmt", 129>>}
